@@ -286,7 +286,7 @@ class DenseOutput(object):
 
     def remove_interpolant(self, idx):
         out = self.t_eval.pop(idx), self.y_interpolants.pop(idx)
-        self.__t_eval_arr = D.ar_numpy.stack(self.t_eval)
+        self.__t_eval_arr_stale = True
         return out
 
     def __len__(self):
@@ -1066,6 +1066,9 @@ class OdeSystem(object):
                                     self.__events.append(ev_state)
 
                         if end_int:
+                            # the step is rolled back: its interpolant goes with it, the integration up to
+                            # the event records its own pieces
+                            self.__sol.remove_interpolant(-1 if dTime >= 0 else 0)
                             self.integrate(roots[-1])
                             self.__int_status = 2
                         else:
